@@ -76,16 +76,42 @@ def binding_path(scope, name):
     return "unbound"
 
 
+def _visible_ignoring_hiding(scope):
+    """use_visible() of the reference model, except that 'use m, loc => rem' also leaves rem visible under its own name
+    (what a per-module (only-list, rename-map) record without a notion of hidden names yields)."""
+    out = {}
+    for u in scope.uses:
+        exp = _exported_ignoring_hiding(u.module.inner)
+        if u.only is None:
+            for n, e in exp.items():
+                out.setdefault(n, e)
+            for loc, rn, rem in (u.renames or []):
+                out.setdefault(loc.lower(), rem)
+        else:
+            for loc, rem in u.only:
+                out[loc.lower()] = rem
+    return out
+
+
+def _exported_ignoring_hiding(msc):
+    out = {}
+    if not msc.default_private:
+        out.update(_visible_ignoring_hiding(msc))
+    for n, e in msc.declared.items():
+        if e.vis == "private" or (e.vis is None and msc.default_private):
+            continue
+        out[n] = e
+    return out
+
+
 def hidden_by_rename_list(scope, name, ent):
-    """True if `ent` is an entity that a rename list without ONLY ('use m, loc => NAME') on the scope chain of `scope` makes
-    inaccessible under NAME (it is accessible as loc only), i.e. a lookup of NAME that ignores the hiding finds `ent`."""
+    """True if `ent` is an entity that a rename list without ONLY ('use m, loc => NAME'), in the scope chain of `scope` or
+    in a module reached from it, makes inaccessible under NAME, i.e. a lookup that ignores the hiding finds `ent`."""
     n = name.lower()
     s = scope
     while s is not None:
-        for u in s.uses:
-            for loc, rn, rem in (u.renames or []):
-                if rn == n and rem is ent:
-                    return True
+        if _visible_ignoring_hiding(s).get(n) is ent and s.use_visible().get(n) is not ent:
+            return True
         s = s.parent
     return False
 
